@@ -9,7 +9,9 @@ import json, os, subprocess, sys, glob, shutil, time
 
 pid = sys.argv[1]
 check_pids = sys.argv[2:] or [pid]
-wt = f"/tmp/seed/{pid}"
+ROOT = os.environ.get("SEED_ROOT", "/tmp/seed")
+RES = os.environ.get("SEED_RESULTS", "/tmp/seed/results/final")
+wt = f"{ROOT}/{pid}"
 res = []
 env = dict(os.environ, REPO_ROOT=wt, PYTHONPATH=f"{wt}/src")
 
@@ -46,7 +48,7 @@ for d in sorted(glob.glob(f"{wt}/_seeded/*/")):
     entry["confirmed"] = rc0 == 0 and rc1 != 0 and "133 passed" in entry["suite_patched"]
     entry["checks"] = {}
     for cp in check_pids:
-        out_dir = f"/tmp/vfout/{pid}-{k}-{cp}"
+        out_dir = f"/tmp/vfout/{os.path.basename(ROOT)}-{pid}-{k}-{cp}"
         shutil.rmtree(out_dir, ignore_errors=True); os.makedirs(out_dir)
         t0 = time.time()
         r = subprocess.run(f"cd /verif && VF_REPO={wt} VF_OUT={out_dir} ./vfc check {cp} --tier quick", shell=True, capture_output=True, text=True)
@@ -54,8 +56,8 @@ for d in sorted(glob.glob(f"{wt}/_seeded/*/")):
         entry["checks"][cp] = {"exit": r.returncode, "keys": keys[:8], "wall_s": round(time.time() - t0), "tail": r.stdout.strip().splitlines()[-1:] }
     sh(f"git -C {wt} checkout -- src")
     res.append(entry)
-os.makedirs("/tmp/seed/results/final", exist_ok=True)
-json.dump(res, open(f"/tmp/seed/results/final/{pid}.json", "w"), indent=1)
+os.makedirs(RES, exist_ok=True)
+json.dump(res, open(f"{RES}/{pid}.json", "w"), indent=1)
 for e in res:
     print(pid, e["k"], "confirmed" if e.get("confirmed") else f"NOT-CONFIRMED({e.get('demo_clean_rc')},{e.get('demo_patched_rc')},{e.get('suite_patched')},{e.get('apply_error','')})",
           {cp: (c["exit"], c["keys"][:3]) for cp, c in e.get("checks", {}).items()}, "|", e["meta"].get("summary", "")[:110])
